@@ -114,6 +114,11 @@ fn matched(case: &Case, tpl: &Value, x: f64, y: f64, phi: f64, st: &mut Stats, s
         }
     };
     let pl: Vec<Affine> = state.relative_positions().map(|t| to_affine(&t)).collect();
+    match_placements(case, &g, &pl, x, y, phi, st, strict)
+}
+
+/// match a list of placements one-to-one to the ITA operations applied to (x, y, phi)
+fn match_placements(case: &Case, g: &groups::Group, pl: &[Affine], x: f64, y: f64, phi: f64, st: &mut Stats, strict: bool) -> Option<Vec<Affine>> {
     if pl.len() != g.ops.len() {
         st.violation(viol("count", case, json!({"placements": pl.len(), "order": g.ops.len()})));
         return None;
@@ -182,8 +187,74 @@ pub fn check(case: &Case, tpl: &Value, st: &mut Stats) {
     }
 }
 
+/// One state object reused over a history of writes and undos through its own basis handles
+/// (what the optimiser does): after every operation the placements must be those of the
+/// coordinates the site holds *now*.
+pub fn check_history(group: &str, tpl: &Value, hist_seed: u64, ops: usize, st: &mut Stats) {
+    use packing::traits::{Basis, State};
+    let mut own = crate::common::rng_for(hist_seed, 1515);
+    let rng = &mut own;
+    st.eval();
+    let g = match groups::group(group) {
+        Some(g) => g,
+        None => return,
+    };
+    let layout = match crate::libx::basis_layout(group) {
+        Ok(l) => l,
+        Err(e) => {
+            st.inconclusive.push(e);
+            return;
+        }
+    };
+    let state = match state_with_site(tpl, coord(rng), coord(rng), rng.gen_range(0., 2. * PI)) {
+        Ok(s) => s,
+        Err(_) => return,
+    };
+    let n = layout.len();
+    let (ix, iy, iphi) = (layout[n - 3], layout[n - 2], layout[n - 1]);
+    let mut basis = state.generate_basis();
+    let mut script: Vec<String> = vec![];
+    st.nontrivial(hash64(&[hash_str(group), rng.gen::<u64>()]));
+    for step in 0..ops {
+        let h = [ix, iy, iphi][rng.gen_range(0, 3)];
+        match rng.gen_range(0, 5) {
+            0 => {
+                basis[h].reset_value();
+                script.push(format!("reset({})", h));
+            }
+            1 | 2 => {
+                let v = if h == iphi { rng.gen_range(0., 2. * PI) } else { coord(rng) };
+                basis[h].set_value(v);
+                script.push(format!("set({},{})", h, v));
+            }
+            _ => {
+                let stepsize = [0.01, 0.3, 1.][rng.gen_range(0, 3)];
+                basis[h].set_sampled(rng, stepsize);
+                script.push(format!("sample({})", h));
+            }
+        }
+        if rng.gen_bool(0.6) {
+            let (x, y, phi) = (basis[ix].get_value(), basis[iy].get_value(), basis[iphi].get_value());
+            let pl: Vec<Affine> = state.relative_positions().map(|t| to_affine(&t)).collect();
+            st.count("history_placement_checks");
+            let case = Case { group: group.to_string(), x, y, phi, dx: 0, dy: 0, dphi: 0 };
+            let before = st.violations.len();
+            if match_placements(&case, &g, &pl, x, y, phi, st, true).is_none() {
+                // re-label: the same coordinates on a fresh state are fine (checked elsewhere);
+                // what failed here is the reused object
+                if let Some(v) = st.violations.get_mut(before) {
+                    v.signature = format!("{}:after-a-history-of-writes-and-undos", v.signature);
+                    v.kind = "c15.history".into();
+                    v.case = json!({"group": group, "hist_seed": hist_seed, "ops": ops, "last_operations": script.iter().rev().take(12).rev().collect::<Vec<_>>(), "step": step, "site_now": [x, y, phi]});
+                }
+                return;
+            }
+        }
+    }
+}
+
 pub fn run(ctx: &Ctx) {
-    ctx.set_rule("states built from a JSON template with exact site coordinates: x,y uniform in [-1/2,1/2), exactly +-1/2, 0, +-1/4, 1..4 ulps either side of +-1/2, tiny/denormal negatives; orientation incl. 0, pi, 2pi; relative_positions() matched one-to-one to the ITA operations (linear part W.Rot(phi) to 1e-15, translation congruent mod 1 to W(x,y)+w to 1e-12, inside [-1/2,1/2)); plus equivalence of (x+-k, y+-k, phi+-2pi) to 1e-9 on the torus; non-trivial = group order >= 2 or a coordinate on/next to a face or special position; distinct by exact coordinate bits");
+    ctx.set_rule("states built from a JSON template with exact site coordinates: x,y uniform in [-1/2,1/2), exactly +-1/2, 0, +-1/4, 1..4 ulps either side of +-1/2, tiny/denormal negatives; orientation incl. 0, pi, 2pi; relative_positions() matched one-to-one to the ITA operations (linear part W.Rot(phi) to 1e-15, translation congruent mod 1 to W(x,y)+w to 1e-12, inside [-1/2,1/2)); plus equivalence of (x+-k, y+-k, phi+-2pi) to 1e-9 on the torus; plus histories on ONE reused state: 60 random set / reset / sampled-set operations through its own basis handles, placements checked against the coordinates the site holds after each; non-trivial = group order >= 2 or a coordinate on/next to a face or special position; distinct by exact coordinate bits");
     let n = ctx.tier.pick(25_000u64, 3_000_000u64);
     let tpls: Vec<(String, Value)> = match groups::NAMES.iter().map(|g| template(g).map(|t| (g.to_string(), t))).collect::<Result<Vec<_>, _>>() {
         Ok(t) => t,
@@ -198,13 +269,21 @@ pub fn run(ctx: &Ctx) {
             let tpl = &tpls.iter().find(|(g, _)| *g == c.group).unwrap().1;
             check(&c, tpl, st);
         }
+        for _ in 0..(n / 200).max(20) {
+            let (g, tpl) = &tpls[rng.gen_range(0, tpls.len())];
+            check_history(g, tpl, rng.gen(), 60, st);
+        }
     });
     ctx.set_min_nontrivial(1000);
 }
 
 pub fn replay(ctx: &Ctx, case: &Value) {
     let mut st = Stats::new();
-    if let Ok(c) = serde_json::from_value::<Case>(case.clone()) {
+    if let (Some(g), Some(hs)) = (case["group"].as_str(), case["hist_seed"].as_u64()) {
+        if let Ok(tpl) = template(g) {
+            check_history(g, &tpl, hs, case["ops"].as_u64().unwrap_or(60) as usize, &mut st);
+        }
+    } else if let Ok(c) = serde_json::from_value::<Case>(case.clone()) {
         if let Ok(tpl) = template(&c.group) {
             check(&c, &tpl, &mut st);
         }
